@@ -127,6 +127,31 @@ def perm_groups(tier, props=("C13", "C09", "C10", "C11")):
     return gs
 
 
+def compress_groups(tier, props=("C13", "C03", "C09", "C12")):
+    """_mzd_compress_l (mzp.c), the compression step of the block-recursive PLE, under its own contract.
+    (r1, n1, r2, nrows, ncols, kinds, zero rows or None): rest = 64 - r1 % 64 bits first, then whole words (aligned / shifted), then a partial word"""
+    cases = [(3, 64, 2, 7, 70, ["owned", "view1"], None), (0, 64, 3, 5, 67, ["owned"], None), (5, 64, 0, 6, 65, ["owned"], None), (64, 64, 3, 68, 70, ["owned"], None),
+             (63, 64, 66, 131, 130, ["owned"], (63, 120)), (60, 64, 70, 132, 134, ["view1"], (60, 125)),
+             (64, 128, 130, 196, 258, ["owned"], (64, 190))]
+    if tier == "thorough":
+        cases += [(63, 64, 66, 131, 130, ["owned", "view1"], None), (1, 128, 200, 203, 330, ["owned"], (1, 198))]
+    gs = []
+    for r1, n1, r2, nr, nc, kinds, z in cases:
+        for kind in kinds:
+            d = mat(nr, nc, kind)
+            dd = dict(d)
+            dd.update(H_COMPRESS=None, PLEN=1, CR1=r1, CN1=n1, CR2=r2)
+            note = "all cells symbolic"
+            if z:
+                dd.update(ZROWS=None, ZLO=z[0], ZHI=z[1])
+                note = "rows [%d,%d) zero, the others symbolic" % z
+            gs.append(Group(gid="K._mzd_compress_l.%dx%d.r%d-n%d-r%d.%s" % (nr, nc, r1, n1, r2, kind), props=list(props), harness="k_perm.c", function="_mzd_compress_l", layer="K",
+                            defines=dd, tus=TUS + ["mzp"], enforce=["_mzd_compress_l"], assert_mode=True, solver="--sat-solver cadical",
+                            unwind=max(nr, 17) + 3, bounded=True, bound_note="shape %s, r1=%d n1=%d r2=%d (%s)" % (shape_str(d), r1, n1, r2, note),
+                            shape=shape_str(d) + " r1=%d n1=%d r2=%d" % (r1, n1, r2), timeout=600 if tier == "quick" else 1800, mem_gb=32 if nr > 150 else 12, slots=3 if nr > 150 else 1))
+    return gs
+
+
 def groups(tier, seed):
     from vplib.core import with_canaries
-    return with_canaries(rowop_groups(tier) + combine_groups(tier) + perm_groups(tier))
+    return with_canaries(rowop_groups(tier) + combine_groups(tier) + perm_groups(tier) + compress_groups(tier))
